@@ -129,7 +129,8 @@ namespace glm
 			return quat_identity<T,Q>();
 		}
 
-		if(cosTheta < static_cast<T>(-1) + epsilon<T>())
+		// The rounded dot product of two exactly opposite unit vectors can be a few ulps above -1
+		if(cosTheta < static_cast<T>(-1) + static_cast<T>(4) * epsilon<T>())
 		{
 			// special case when vectors in opposite directions :
 			// there is no "ideal" rotation axis
